@@ -118,6 +118,25 @@ pub fn run(ctx: &Ctx) -> Report {
     let n = jobs.len() / 2;
     let st = explore(&ctx.pool, jobs, j);
     rep.part("collisions at every position x kind", st, serde_json::json!({"scenarios": n, "d": d}));
+    // the collision report must get through even when thousands of updates are queued in front of it and the
+    // consumer of the status channel does not run
+    {
+        let mut jobs = vec![];
+        for d in if ctx.quick() { vec!["parfile"] } else { vec!["parfile", "parblock"] } {
+            let mut tree = vec![Entry::dir("src"), Entry::dir("src/big"), Entry::file("src/zz", "new zz"), Entry::dir("dst"), Entry::file("dst/zz", "EXISTING").mtime(1_200_000_000, 1).mode(0o604)];
+            for i in 0..4200 {
+                tree.push(Entry::file(&format!("src/big/f{:04}", i), "x"));
+            }
+            let s = Arc::new(Scenario::new(&format!("noclobber-after-4200-files-{}", d), tree, &["-r", "-n", "--driver", d, "-w", "2", "src/big", "src/zz", "dst"]));
+            // main ("0") has the lowest priority: it only runs when everything else is blocked
+            let order: Vec<String> = if d == "parfile" { vec!["0.1.1".into(), "0.1.2".into(), "0.1.3".into(), "0.1".into(), "0".into()] } else { vec!["0.1.2".into(), "0.1.1".into(), "0.1.1.*".into(), "0.1".into(), "0".into()] };
+            let mut sp = RunSpec::base(Policy::Prio(order));
+            sp.step_limit = 20_000_000;
+            jobs.push((s, sp, 0usize));
+        }
+        let st = explore(&ctx.pool, jobs, j);
+        rep.part("a collision after 4200 files while the main thread (consumer of the status channel) is starved", st, serde_json::json!({"files": 4200}));
+    }
     // -n combined with every other option: none of them may switch the protection off
     {
         let flags: Vec<Vec<&str>> = vec![vec!["--backup", "numbered"], vec!["--backup", "auto"], vec!["--no-perms"], vec!["--no-timestamps"], vec!["--ownership"], vec!["--fsync"], vec!["--reflink", "never"], vec!["--reflink", "always"], vec!["--no-progress"], vec!["--block-size", "0"], vec!["--block-size", "1"], vec!["--gitignore"], vec!["-L"], vec!["-w", "1"], vec!["-w", "0"], vec!["-vv"], vec!["-T"], vec!["-g"]];
